@@ -18,7 +18,7 @@ def prop(pid, quick, thorough=(), level="other", explanation="", assumptions=(),
 
 prop(
     "C01",
-    [hdr.rule_tpl_hdr, hdr.rule_tpl_lint, hdr.rule_tpl_selfassoc, rawid.rule_raw_id, shape.rule_tpl_prec, fmtdec.rule_traversal, fmtdec.rule_guard_use, fmtdec.rule_shared_decision, gendet.rule_generics_search, gendet.rule_type_param_used, reject.rule_reject_ledger, idx.rule_enumerate_positions, errsel.rule_error_selection, fmtdec.rule_expansion_pair, hdr.rule_generics_preserve],
+    [hdr.rule_bounds_appended, idx.rule_idx_space, shape.rule_discriminants, hdr.rule_tpl_hdr, hdr.rule_tpl_lint, hdr.rule_tpl_selfassoc, rawid.rule_raw_id, shape.rule_tpl_prec, fmtdec.rule_traversal, fmtdec.rule_guard_use, fmtdec.rule_shared_decision, gendet.rule_generics_search, gendet.rule_type_param_used, reject.rule_reject_ledger, idx.rule_enumerate_positions, errsel.rule_error_selection, fmtdec.rule_expansion_pair, hdr.rule_generics_preserve],
     explanation="Structural necessary conditions of 'every supported input expands to code that compiles warning-free': the 27 generated impl headers and every TypeGenerics splice "
     "(interpolations typed by rustc through the MIR binding join, identifier provenance by def-use), lint attributes on impls that name user variants, no Self::<Assoc> in enum-capable expanders, raw identifiers, "
     "spliced user expressions.",
@@ -30,7 +30,7 @@ prop(
 
 prop(
     "C02",
-    [tables.rule_fmt_trait_tables, fmtdec.rule_tpl_verb, fmtdec.rule_binder_align, fmtdec.rule_pointer_deref, fmtdec.rule_rename_all, state.rule_iteration_state, optrules.rule_option_flow, rawid.rule_raw_id, fmtparse.rule_peg_tables, fmtparse.rule_peg_equiv, fmtdec.rule_attr_separator],
+    [fmtdec.rule_literal_verbatim, tables.rule_fmt_trait_tables, fmtdec.rule_tpl_verb, fmtdec.rule_binder_align, fmtdec.rule_pointer_deref, fmtdec.rule_rename_all, state.rule_iteration_state, optrules.rule_option_flow, rawid.rule_raw_id, fmtparse.rule_peg_tables, fmtparse.rule_peg_equiv, fmtdec.rule_attr_separator],
     explanation="With an attribute the expansion *is* a write!/format_args! call, so 'prints what format! prints' reduces to: the attribute's tokens reach the macro verbatim and in order, fields are bound under "
     "the names the literal may use (`ident` / `_i`, same field), Pointer placeholders get the field itself, and the implicit body (unit name with rename_all, single-field delegation) is built as documented.",
     assumptions=["Rust's own semantics of format_args! (trusted)", NOT_DECIDED_VALUES],
@@ -53,7 +53,7 @@ prop(
 
 prop(
     "C04",
-    [tables.rule_fmt_trait_tables, fmtdec.rule_guard_use, fmtdec.rule_traversal, fmtdec.rule_lookup_agreement, fmtdec.rule_shared_decision, fmtparse.rule_fmt_counter, fmtparse.rule_peg_tables, fmtdec.rule_expansion_pair],
+    [hdr.rule_bounds_appended, attrs.rule_typed_attrs, tables.rule_fmt_trait_tables, fmtdec.rule_guard_use, fmtdec.rule_traversal, fmtdec.rule_lookup_agreement, fmtdec.rule_shared_decision, fmtparse.rule_fmt_counter, fmtparse.rule_peg_tables, fmtdec.rule_expansion_pair],
     explanation="Bounds are emitted by six templates `#ty: core::fmt::#Trait`; each must be guarded by contains_generics on the same binding; contains_generics must traverse every variant / type-bearing field of "
     "syn::Type, PathArguments and GenericArgument (read from the syn sources the crate builds against); the placeholder->field lookup agrees with its sibling and with the binder names; body and bounds take the same decisions.",
     assumptions=["NOT decided: that bounded_types is a complete algorithm for arbitrary literals beyond these necessary conditions", NOT_DECIDED_VALUES],
@@ -61,7 +61,7 @@ prop(
 
 prop(
     "C05",
-    [fmtdec.rule_dec_cover, fmtdec.rule_transparent_call, fmtdec.rule_transparent_siblings, split.rule_split_table, fmtparse.rule_peg_combinators, fmtparse.rule_single_placeholder, split.rule_alias_test],
+    [fmtdec.rule_shared_attr_unfiltered, fmtdec.rule_dec_cover, fmtdec.rule_transparent_call, fmtdec.rule_transparent_siblings, split.rule_split_table, fmtparse.rule_peg_combinators, fmtparse.rule_single_placeholder, split.rule_alias_test],
     explanation="FmtAttribute::transparent_call is the decision function for flag pass-through: every FormatSpec field must veto transparency, exactly one placeholder, the positional index must denote the single argument, "
     "and each site emitting an attribute body must ask it first and fall back to write! unconditionally. Argument counting depends on the argument scanner (C16 findings are repeated here).",
     assumptions=["format_args!/write! ignore the outer formatter's flags (Rust semantics)", NOT_DECIDED_VALUES],
@@ -69,7 +69,7 @@ prop(
 
 prop(
     "C06",
-    [fmtdec.rule_traversal, dbg.rule_builder_shape, dbg.rule_debug_tuple_sibling, rawid.rule_raw_id, fmtdec.rule_binder_align, state.rule_iteration_state, idx.rule_enumerate_positions, fmtdec.rule_pointer_deref, generic.rule_order_adaptors],
+    [fmtdec.rule_literal_verbatim, hdr.rule_bounds_appended, hdr.rule_tpl_hdr, fmtdec.rule_traversal, dbg.rule_builder_shape, dbg.rule_debug_tuple_sibling, rawid.rule_raw_id, fmtdec.rule_binder_align, state.rule_iteration_state, idx.rule_enumerate_positions, fmtdec.rule_pointer_deref, generic.rule_order_adaptors],
     explanation="Without attributes generate_body must drive std's own builders like #[derive(Debug)] does (shape rules), names are rendered un-raw (RAW-ID over rustc-resolved Ident->text conversions), and the crate's copy of "
     "core::fmt::DebugTuple must have the same effect skeleton as the toolchain's core/src/fmt/builders.rs (sibling comparison, method by method).",
     assumptions=["std's #[derive(Debug)] expands to debug_struct/debug_tuple/write_str calls with un-raw names (rustc's builtin derive)", NOT_DECIDED_VALUES],
@@ -77,7 +77,7 @@ prop(
 
 prop(
     "C07",
-    [fmtparse.rule_peg_tables, fmtparse.rule_single_placeholder, tables.rule_fmt_trait_tables, fmtdec.rule_shared_reject, fmtdec.rule_shared_decision, fmtdec.rule_lookup_agreement, state.rule_iteration_state, optrules.rule_option_flow, fmtparse.rule_fmt_counter, fmtdec.rule_expansion_pair],
+    [fmtdec.rule_shared_attr_unfiltered, reject.rule_reject_ledger, fmtparse.rule_peg_tables, fmtparse.rule_single_placeholder, tables.rule_fmt_trait_tables, fmtdec.rule_shared_reject, fmtdec.rule_shared_decision, fmtdec.rule_lookup_agreement, state.rule_iteration_state, optrules.rule_option_flow, fmtparse.rule_fmt_counter, fmtdec.rule_expansion_pair],
     explanation="Compile-time clauses: the `_variant` rejection precedes arm generation and tests modifiers OR non-Display; Debug rejects an enum-level format; `_variant` detection resolves names like bounded_types does; "
     "body and bounds share the wrap/default decision of shared_attr_info; the wrapping template binds `_variant` with the fields in scope; rename_all applies before the wrap split.",
     assumptions=["NOT decided: the full three-way decision (shared attribute x own attribute x field count) as a truth table, and every printed text", NOT_DECIDED_VALUES],
@@ -85,7 +85,7 @@ prop(
 
 prop(
     "C08",
-    [hyg.rule_tpl_ufcs, conv.rule_merge_symmetry, conv.rule_from_table, conv.rule_field_order, conv.rule_validate_arity, conv.rule_into_impl_set, idx.rule_enumerate_positions, generic.rule_arg_order, generic.rule_field_correspondence, generic.rule_order_adaptors, state.rule_accumulators, reject.rule_reject_ledger],
+    [shape.rule_ref_types, hdr.rule_tpl_hdr, hyg.rule_tpl_ufcs, conv.rule_merge_symmetry, conv.rule_from_table, conv.rule_field_order, conv.rule_validate_arity, conv.rule_into_impl_set, idx.rule_enumerate_positions, generic.rule_arg_order, generic.rule_field_correspondence, generic.rule_order_adaptors, state.rule_accumulators, reject.rule_reject_ledger],
     explanation="Field order and the impl set are decided in a few places: expand_fields/(i, field) pairing and the per-field templates (exactly one From::from), the `match (attrs, skip_variant)` table with a complete first pass for "
     "has_explicit_from, Into's (index, field, skip) triples and reference-kind table, Constructor's single field list, and the field-by-field symmetry of attribute merging.",
     assumptions=[NOT_DECIDED_VALUES, "coherence of the generated impls with user impls is rustc's business"],
@@ -101,7 +101,7 @@ prop(
 
 prop(
     "C10",
-    [facade.rule_error_display, cfg.rule_cfg_export, attrs.rule_legacy_attr_parser, hyg.rule_tpl_ufcs, ops.rule_tpl_role, ops.rule_unary, ops.rule_method_names, generic.rule_arg_order, generic.rule_field_correspondence, generic.rule_order_adaptors, optrules.rule_meta_defaults, state.rule_raw_flags, hdr.rule_generics_preserve],
+    [generic.rule_position_search, facade.rule_error_display, cfg.rule_cfg_export, attrs.rule_legacy_attr_parser, hyg.rule_tpl_ufcs, ops.rule_tpl_role, ops.rule_unary, ops.rule_method_names, generic.rule_arg_order, generic.rule_field_correspondence, generic.rule_order_adaptors, optrules.rule_meta_defaults, state.rule_raw_flags, hdr.rule_generics_preserve],
     explanation="Operand roles are visible in the operator templates: receiver rooted in the left operand, argument in the right, same field/variant on both sides, `(self, rhs)` scrutinee, unit/mismatch arms; unary wrapping governed by one flag; "
     "method names derived from trait names are constant-evaluated and compared with core's trait declarations; Sum/Product fold from the field-wise empty value.",
     assumptions=[NOT_DECIDED_VALUES],
@@ -109,7 +109,7 @@ prop(
 
 prop(
     "C11",
-    [facade.rule_error_display, shape.rule_accessors, errsel.rule_view_defs, idx.rule_idx_space, rawid.rule_raw_id, generic.rule_arg_order, generic.rule_field_correspondence, generic.rule_order_adaptors, optrules.rule_meta_defaults, state.rule_raw_flags],
+    [shape.rule_ref_types, hdr.rule_generics_preserve, facade.rule_error_display, shape.rule_accessors, errsel.rule_view_defs, idx.rule_idx_space, rawid.rule_raw_id, generic.rule_arg_order, generic.rule_field_correspondence, generic.rule_order_adaptors, optrules.rule_meta_defaults, state.rule_raw_flags],
     explanation="Accessor methods, patterns, binders and error values are built per variant from one source; the failure re-match covers all variants; TryInto patterns go through matcher(field_indexes, binders) (IDX-SPACE, VIEW-DEF); "
     "method names are built from un-raw variant names.",
     assumptions=["snake_case conversion is delegated to convert_case (not analysed)", NOT_DECIDED_VALUES],
@@ -132,7 +132,7 @@ prop(
 
 prop(
     "C14",
-    [hyg.rule_tpl_ufcs, shape.rule_delegation, errsel.rule_view_defs, idx.rule_idx_space, idx.rule_enumerate_positions, gendet.rule_generics_search, generic.rule_arg_order, generic.rule_field_correspondence, optrules.rule_meta_defaults, state.rule_raw_flags, reject.rule_reject_ledger],
+    [shape.rule_ref_types, hdr.rule_generics_preserve, hyg.rule_tpl_ufcs, shape.rule_delegation, errsel.rule_view_defs, idx.rule_idx_space, idx.rule_enumerate_positions, gendet.rule_generics_search, generic.rule_arg_order, generic.rule_field_correspondence, optrules.rule_meta_defaults, state.rule_raw_flags, reject.rule_reject_ledger],
     explanation="Delegating derives use element 0 of the enabled views (VIEW-DEF keeps positional names original), direct forms `&[mut] self.member`, forwarded forms through one cast with projected associated types, "
     "RefType tables pairwise consistent, AsRef kind decision and the autoref-specialisation levels of src/as.rs vs. the call site.",
     assumptions=["autoref-based specialisation: method probing prefers the receiver with fewer auto-refs (language semantics)", NOT_DECIDED_VALUES],
